@@ -328,6 +328,24 @@ fn gen_hist(s: &mut Src, ctx: &mut Ctx, fl: &mut GenFlags) -> Case {
         wide_scale_label(ctx);
     }
     let mut case = Case { keys, max_cp, default_ttl, arb_floats: arb, ops };
+    // One history in five (by the case's salt: no draw) deals in signed zeros: every written value becomes 0.0, -0.0,
+    // [0.0] or [-0.0] in turn, so that a key is overwritten with the zero of the other sign between a checkpoint and
+    // its restore. The two are different values (different bits, different text); equal only under `==`.
+    if crate::core::case_bit(13) && crate::core::case_bit(17) && !crate::core::case_bit(23) || (crate::core::case_bit(5) && crate::core::case_bit(29) && crate::core::case_bit(31)) {
+        let mut k = crate::core::case_bit(2) as usize;
+        for op in case.ops.iter_mut() {
+            if let Op::Put(_, v) | Op::PutTtl(_, v, _) | Op::Update(_, v) = op {
+                *v = match k % 4 {
+                    0 => Value::Number(0.0),
+                    1 => Value::Number(-0.0),
+                    2 => Value::Array(vec![Value::Number(-0.0)]),
+                    _ => Value::Array(vec![Value::Number(0.0)]),
+                };
+                k += if crate::core::case_bit(3) { 1 } else { 2 } + (k % 2);
+            }
+        }
+        ctx.label("signed-zeros");
+    }
     finish_gen(&mut case, fl, ctx);
     case
 }
